@@ -75,6 +75,10 @@ def _second_generation(case, path):
     import biom
     try:
         t1 = biom.load_table(path)
+        # optional step between the generations: the documented way of adding group metadata, {category: (type, payload)},
+        # to a table whose loaded entries are bare payload texts (the dict then holds both forms)
+        for ax, g in sorted((case.get('gen2_add') or {}).items()):
+            t1.add_group_metadata({k: tuple(v) for k, v in g.items()}, axis=ax)
         _GEN2[jhash(case)] = U.enc_table_state(t1)
     except Exception as e:
         _GEN2[jhash(case)] = None
@@ -240,11 +244,16 @@ def oracle(case, obs, want=None):
             fails.append('second generation: the re-written file could not be loaded: %s' % (g2.get('loaded'),))
         else:
             want2 = dict(want, genby=_genby2(case))        # the second write was asked to record another generated-by
+            added = set()
+            for ax, g in (case.get('gen2_add') or {}).items():
+                f_ = 'ogmd' if ax == 'observation' else 'sgmd'
+                want2[f_] = dict(want2.get(f_) or {}, **{k: ['s', v[1]] for k, v in g.items()})
+                added.add(f_)
             for f, label in FIELDS:
                 if g2['loaded'].get(f) != want2.get(f):
                     fails.append('second generation (write, load, write, load): %s differ from what was to be written: wrote %s, loaded %s'
                                  % (label, str(want2.get(f))[:160], str(g2['loaded'].get(f))[:160]))
-                elif f != 'genby' and isinstance(obs.get('load_table'), dict) and g2['loaded'].get(f) != obs['load_table'].get(f):
+                elif f != 'genby' and f not in added and isinstance(obs.get('load_table'), dict) and g2['loaded'].get(f) != obs['load_table'].get(f):
                     fails.append('second generation: %s differ from the first generation' % label)
     exp = ['gzip' if case['compress'] else 'none']
     if obs.get('compression') != exp:
